@@ -525,7 +525,9 @@ def rule_E(ck, units, only=None, floor=3):
                             if eff in ('read', 'rw', None):
                                 return True                     # may read what it gets (unknown callees are assumed to)
                         return False
-                    reads = [n for n in walk(L) if n['k'] == 'call' and reads_it(n) and not (n.get('f') or '').startswith(('std::fill', 'std::copy', 'std::sort'))]
+                    # consumers of the per-iteration data are the library's own kernels (QR, small inverse, sorting helpers ...); a standard
+                    # algorithm over [begin, end) of a container that persists across the iterations (std::find over visit marks) is a query
+                    reads = [n for n in walk(L) if n['k'] == 'call' and reads_it(n) and (n.get('f') or '').startswith('amgcl::')]
                     if not ws or not reads:
                         continue
                     # full (re)initialisations inside L
